@@ -72,6 +72,7 @@ class Built:
     flat: dict = field(default_factory=dict)
     summary: str = ""
     porder: Optional[list] = None
+    mismatch: list = field(default_factory=list)  # disagreements between real objects and abstract design
 
 
 def build(design: dict) -> Built:
@@ -126,7 +127,17 @@ def _extract(b: Built):
     ranks = {u: i for i, u in enumerate(sorted(uids))}
     modmap = lambda u: ranks[u]  # noqa: E731
 
-    site_of = {id(rec.call_tuple): sid for sid, rec in top.sites.items()}
+    site_of = {id(rec.call_tuple): sid for sid, rec in top.sites.items() if rec.call_tuple is not None}
+    for sid, rec in sorted(top.sites.items()):
+        if rec.call_tuple is None:
+            b.mismatch.append(f"call site {sid} ({rec.stmt['ref']}) of the design was not registered in method_calls of its caller")
+    uidl = [m.uid for m in top.tmodules]
+    if len(set(uidl)) != len(uidl):
+        b.mismatch.append(f"distinct TModule objects share a uid: {sorted(uidl)}")
+    expected = set(top.bodies)
+    if len(allb) != len(expected) or any(id(x) not in b.body_id for x in top.bodies.values()):
+        b.mismatch.append(f"manager sees {len(allb)} bodies, the design defines {len(expected)}")
+    extra_sites = [len(top.sites)]
     stmts = _method_stmts(b.design)
     prio = {Priority.UNDEFINED: "U", Priority.LEFT: "L", Priority.RIGHT: "R"}
     fb = []
@@ -140,6 +151,10 @@ def _extract(b: Built):
             callee = mobj._body  # provide chains resolved by the real code
             for tup in cl:
                 cm, cpth = _path(tup[0], modmap)
+                if id(tup) not in site_of:
+                    site_of[id(tup)] = extra_sites[0]
+                    extra_sites[0] += 1
+                    b.mismatch.append(f"body {name} has a method_calls entry that no call of the design produced")
                 calls.append({"c": b.body_id[id(callee)], "m": cm, "p": cpth, "s": site_of[id(tup)]})
         rels = []
         for r in body.relations:
